@@ -14,6 +14,7 @@ import (
 	sentinel "github.com/alibaba/sentinel-golang/api"
 	"github.com/alibaba/sentinel-golang/core/base"
 	"github.com/alibaba/sentinel-golang/core/flow"
+	"github.com/alibaba/sentinel-golang/util/vhook"
 
 	"vh/internal/cli"
 	"vh/internal/emit"
@@ -206,7 +207,43 @@ func genSeq(r *rng.R, id int) seqCase {
 
 // ---- run on the implementation ----------------------------------------------------------
 
+// spinGuard: in a sequential run nobody interferes, so one DoCheck performs at most one CAS (yield 202).
+// More than a few means the loop retries on its own - a livelock that would hang the harness (e.g. the
+// CAS operands swapped): the call is aborted by a panic at the yield point and reported by the monitor.
+type spinGuard struct {
+	cas  int
+	spun bool
+}
+type spinPanic struct{}
+
+func (g *spinGuard) OnYield(id int) {
+	if id == 202 {
+		g.cas++
+		if g.cas > 4 {
+			g.spun = true
+			panic(spinPanic{})
+		}
+	}
+}
+
+// guardedEntry: sentinel.Entry under the spin guard (the panic is recovered by the slot chain or here)
+func guardedEntry(g *spinGuard, res string, opts ...sentinel.EntryOption) (e *base.SentinelEntry, berr *base.BlockError) {
+	g.cas, g.spun = 0, false
+	defer func() {
+		if r := recover(); r != nil {
+			if _, ok := r.(spinPanic); !ok {
+				panic(r)
+			}
+			e, berr = nil, nil
+		}
+	}()
+	return sentinel.Entry(res, opts...)
+}
+
 func runSeq(c seqCase, clk *vclock.Clock) []obsT {
+	guard := &spinGuard{}
+	vhook.SetController(guard)
+	defer vhook.SetController(nil)
 	res := "c10-" + strconv.Itoa(c.ID)
 	rule := &flow.Rule{Resource: res, TokenCalculateStrategy: flow.Direct, ControlBehavior: flow.Throttling,
 		Threshold: float64(c.T), MaxQueueingTimeMs: c.TimeoutMs, StatIntervalInMs: c.StatMs}
@@ -236,7 +273,7 @@ func runSeq(c seqCase, clk *vclock.Clock) []obsT {
 			panic(err)
 		}
 		clk.SetNs(c.Ops[0].Ns)
-		if e, _ := sentinel.Entry(res); e != nil {
+		if e, _ := guardedEntry(guard, res); e != nil {
 			e.Exit()
 		}
 		clk.TakeSleeps()
@@ -251,8 +288,18 @@ func runSeq(c seqCase, clk *vclock.Clock) []obsT {
 	for _, o := range c.Ops {
 		clk.SetNs(o.Ns)
 		clk.TakeSleeps()
-		e, berr := sentinel.Entry(res, sentinel.WithBatchCount(o.B))
+		e, berr := guardedEntry(guard, res, sentinel.WithBatchCount(o.B))
 		sl := clk.TakeSleeps()
+		if guard.spun {
+			// the remaining requests are not issued: the checker is live-locked
+			for len(out) < len(c.Ops) {
+				out = append(out, obsT{Pass: false, BType: "spin", NSlp: len(sl)})
+			}
+			if e != nil {
+				e.Exit()
+			}
+			return out
+		}
 		var w int64
 		for _, d := range sl {
 			w += int64(d)
@@ -284,6 +331,10 @@ func monitorSeq(c seqCase, obs []obsT, rep *emit.Report) (nontrivial bool) {
 	for i, o := range c.Ops {
 		now := int64(o.Ns)
 		ob := obs[i]
+		if ob.BType == "spin" {
+			fail(i, "C10_seq_terminates", "sequential-caller-spins", "an uncontended DoCheck attempted more than 4 compare-and-swaps: the loop does not terminate")
+			return
+		}
 		if o.B == 0 {
 			if !ob.Pass || ob.Wait != 0 {
 				fail(i, "C10_zero_batch_inert", "zero-batch-not-passed", "pass=%v wait=%d", ob.Pass, ob.Wait)
